@@ -605,8 +605,9 @@ def check(rep, args):
         rep.guard(check_config, rep, facts.program(cfg))
         rep.guard(algebra_rules, rep, facts.program(cfg))
     cov = {
-        "explanation": "syntactic ranking argument for do_approx (decreasing, zero-guarded depth budget; sole recursion), constructor invariant, "
-                       "control dependence of the only push, interval bookkeeping, and abstract interpretation of step() over orderings",
+        "explanation": "ranking argument for do_approx by interpretation in (budget x halt) scenarios and of approximate() on fixed subdivision trees "
+                       "(recursive or explicit-stack form alike), sole-cycle rule, constructor invariant, abstract interpretation of step() over orderings, "
+                       "polynomial identities for the evaluators and segment()",
         "evaluations": len(rep.instances),
         "distinct_nontrivial": len({i["what"] for i in rep.instances}),
         "rules": ["R-term", "R-ctor", "R-leaf", "R-ends", "E-exact", "E-agree", "E-tangent", "S-seg", "S-eval"],
